@@ -190,6 +190,9 @@ func C08(c *core.Ctx) {
 		})
 		c.Floor("R2", n, 7, "handler calls in the dispatcher")
 	}
+	// R3: the UP F-SEID keeps addressing the session it was returned for: sessions end only through their own
+	// node (session-end path and ownership rules shared with C01 R6 / C04 R6)
+	c01EndPaths(c, "R3", false)
 	// R6: what a response says about one IE of the request is computed from that IE alone
 	independentIterations(c, "R6", handlerFns(p))
 	// the bytes cached for replay to a retransmitted request are this response's own (not a buffer
